@@ -535,7 +535,12 @@ def grow_order(R, P):
     if R.require(g is not None, "aws_byte_buf_clean_up_secure not found"):
         z = g.calls({"aws_byte_buf_secure_zero", "aws_secure_zero"})
         c = g.calls("aws_byte_buf_clean_up")
-        R.check(len(z) >= 1 and len(c) == 1 and ev_dominates(g, z[0], c[0]), "GROW-ORDER", "clean-up-secure:zero-before-release", "%s()" % g.name, "contents scrubbed before the buffer is released",
+        def _only_null_guarded(zc):
+            """the scrub is skipped only when there is no storage to scrub (`if (buf->buffer)`) and comes before the release"""
+            gs_ = RU.guards(g, zc)
+            tn_ = [RU.cmp_norm(g, c_, p_) for c_, p_, b_ in gs_]
+            return bool(gs_) and all(t_ is not None and t_[1] == "!=" and t_[2] is None and g.show(RU.uncast(g, t_[0])).endswith("->buffer") for t_ in tn_) and c[0] in RU.reach_from(g, zc) and zc not in RU.reach_from(g, c[0])
+        R.check(len(z) >= 1 and len(c) == 1 and (ev_dominates(g, z[0], c[0]) or _only_null_guarded(z[0])), "GROW-ORDER", "clean-up-secure:zero-before-release", "%s()" % g.name, "contents scrubbed before the buffer is released",
                 "clean_up_secure does not scrub before releasing")
     g = P.fn("aws_byte_buf_secure_zero")
     if R.require(g is not None, "aws_byte_buf_secure_zero not found"):
